@@ -1,12 +1,14 @@
 SPECIFICATION SeamSpec
 CONSTANTS
   Sess = {"s1","s2","s3"}
-  Reqs = {"r1","r2"}
+  Reqs = {"r1","r2","d1"}
   Gets = {"g1","g2"}
   Cfgs <- CfgAll
   MaxEmit = 2
   MaxSreq = 1
   MaxSa = 1
+  MaxBc = 1
+  DupOf <- Dup1
   Gates = TRUE
 CONSTRAINT Export
 CHECK_DEADLOCK FALSE
